@@ -191,10 +191,10 @@ def controller_side(rep, mir, L):
                 targets = [s.split(':')[1] for s in sends]; kinds = {s.split(':')[2] for s in sends}
                 if answered:
                     seen.add(want)
-                    if targets != ['tx%d' % c for c in range(NCH)] or kinds != {want}:
+                    if sorted(targets) != ['tx%d' % c for c in range(NCH)] or kinds != {want}:      # every chain exactly once, in any order
                         bad.setdefault('controller.forward', 'the caller of %s() is answered although the %s message was not sent to every chain exactly once (sends before the answer: %s)' % ('pause' if want == 'Pause' else 'resume', want, sends))
                 i = j
             else: i += 1
     for key, what in bad.items(): rep.violated('C12 ' + key, key, what, model={})
-    if not bad: rep.holds('C12.b controller command loop (2 chains, <= 2 commands): Pause / Continue are forwarded as Pause / Resume to every chain, each exactly once and in chain order, before the caller is answered; a chain that is already gone does not stop the others (%d paths)' % len(outs), time.time() - t0)
+    if not bad: rep.holds('C12.b controller command loop (2 chains, <= 2 commands): Pause / Continue are forwarded as Pause / Resume to every chain, each exactly once (in any order), before the caller is answered; a chain that is already gone does not stop the others (%d paths)' % len(outs), time.time() - t0)
     rep.cover('C12.b both Pause and Continue commands answered on some path', seen == {'Pause', 'Resume'})
